@@ -47,6 +47,7 @@ PROPS['C08'] = dict(level='model_checking',
   harnesses=[
     H('v2_nest_vs_join', 'C08_scope_v2.cpp', ['h_nest0', 'h_join0'], 18, final='h_final11', desc='nest/start/complete racing join'),
   ] + [SEQ('v1_plan_%02d' % p, 'C08_scope_v1.cpp', 'h_scope_v1', exc=True, opts=dict(params=[p], max_rec=4), desc='v1 scope with one attached manual leaf, event plan %d (base-4: 0 complete(), 1 cleanup(), 2 request_stop(), 3 work finishes); leaf outcome symbolic' % p) for p in range(64)] + [
+    H('v2_last_completion_vs_late_nest', 'C08_scope_v2.cpp', ['h_complete0', 'h_nest1'], 24, setup='h_setup_joined1', final='h_final21', desc='closed scope with one operation outstanding and a started join: the last completion races a late nest (which must be refused without disturbing the count)'),
     H('v2_two_nest_one_join', 'C08_scope_v2.cpp', ['h_nest0', 'h_nest1', 'h_join0'], 24, final='h_final21', tier='thorough', timeout=3000, desc='two nest/start/complete racing join'),
     H('v2_nest_two_joins', 'C08_scope_v2.cpp', ['h_nest0', 'h_join0', 'h_join1'], 24, final='h_final12', tier='thorough', timeout=3000, desc='one nest racing two joins'),
   ])
@@ -212,7 +213,13 @@ PROPS['C10']['harnesses'] += [H('task_stop_race_o%d' % o, 'C10_race.cpp', ['h_co
    opts=dict(params=[o], max_rec=8, max_visits=60, prune_budget=5000), desc='task<int> with a stoppable receiver: awaited leaf completes with %s on one thread while a stop request arrives on another (stop-request thunk join)' % ['value', 'error', 'done'][o]) for o in (0, 2)]
 PROPS['C20']['harnesses'] += [H('handoff_race_' + cfgname('c++20', defs), 'C20_race.cpp', ['h_start', 'h_resume'], (100 if 'UNDEBUG' in defs else 60), std='c++20', exc=True, defs=defs, extra=['$REPO/source/async_stack.cpp'], timeout=(7200 if 'UNDEBUG' in defs else 900), tier=('deep' if 'UNDEBUG' in defs else 'quick'),
    opts=dict(max_rec=8, max_visits=60), desc='task<int> awaiting a bool-await_suspend awaitable that is resumed on another thread while the suspending thread is still inside await_suspend, ' + ' '.join(defs)) for defs in (['UNDEBUG'], ['NDEBUG'])]
-PROPS['C10']['harnesses'] += [h for h in PROPS['C20']['harnesses'] if h['name'].startswith('handoff_race')]
+THUNK = [H('thunk_join_%s_%s' % (['value', 'done'][d], cfgname('c++20', defs)), 'C10_thunk.cpp', ['h_complete', 'h_stop'], 60, std='c++20', exc=True, defs=defs, extra=['$REPO/source/async_stack.cpp'], timeout=900,
+   opts=dict(params=[d], max_rec=8, max_visits=60), desc='stop-request thunk of task<> driven directly: completion (%s path) on one thread races a stop request (stop callback, deferred stop operation, receiver_t) on another; %s' % (['normal', 'done'][d], ' '.join(defs))) for defs in (['UNDEBUG'], ['NDEBUG']) for d in (0, 1)]
+PROPS['C10']['harnesses'] += THUNK
+PROPS['C20']['harnesses'] += THUNK
+PROPS['C20']['harnesses'] += [SEQ('handoff_inline_n%d_%s' % (n, cfgname('c++20', defs)), 'C20_race.cpp', 'h_inline', std='c++20', exc=True, defs=defs, extra=['$REPO/source/async_stack.cpp'], opts=dict(params=[n], max_rec=10, max_visits=200),
+   desc='task<int>%s awaiting a bool-await_suspend awaitable that resumes the handle inline, before await_suspend returns true, %s' % (' nested in a task<int>' if n else '', ' '.join(defs))) for defs in (['UNDEBUG'], ['NDEBUG']) for n in (0, 1)]
+PROPS['C10']['harnesses'] += [h for h in PROPS['C20']['harnesses'] if h['name'].startswith('handoff_')]
 PROPS['C19']['harnesses'] += [
   H('cancellable_complete_vs_stop', 'C19_cancellable.cpp', ['h_complete', 'h_stop'], 30, setup='h_setup_started', opts=dict(params=[0, 0]), desc='cancellable: started operation; try_complete on one thread races a stop request on another'),
   H('cancellable_start_complete_vs_stop', 'C19_cancellable.cpp', ['h_start_then_complete', 'h_stop'], 40, opts=dict(params=[0, 0]), desc='cancellable: start() then natural completion on one thread, stop request on another (stop may land before, inside or after start)'),
